@@ -565,7 +565,11 @@ fn cmd_check(args: &[String]) -> i32 {
             trace: sh.trace.clone(),
             event_log_hash: format!("{:016x}", r.hash),
         };
-        let path = format!("{}/{}-{}-{}-{}.json", replays, p, oracle, format!("{:?}", sk), index);
+        let path = if *p == prop {
+            format!("{}/{}-{}-{:?}-{}.json", replays, p, oracle, sk, index)
+        } else {
+            format!("{}/{}-as-{}-{}-{:?}-{}.json", replays, prop, p, oracle, sk, index)
+        };
         if v.is_none() {
             eprintln!("HARNESS-ERROR: minimised trace for {}/{} does not reproduce", p, oracle);
             return 2;
